@@ -369,6 +369,82 @@ fn gate_sweep(cfg: &Cfg, rep: &mut Report) {
 }
 
 
+// ------------------------------------------------------------------ a token that is not wired up (yet)
+/// Without a compliance contract nothing can approve or be notified, without an identity verifier nobody
+/// is verified: every movement must be refused until both are named, and work afterwards.
+fn unwired(cfg: &Cfg, rep: &mut Report) {
+    for (k, shape) in ["neither", "compliance-only", "identity-only"].iter().enumerate() {
+        let h = 45_000 + k as u64;
+        if h % cfg.nshards as u64 != cfg.shard as u64 || !cfg.runs(h) {
+            continue;
+        }
+        rep.begin_history(h);
+        let w = World::new(100, 16);
+        let e = &w.env;
+        e.mock_all_auths();
+        let comp = e.register(MockCompliance, ());
+        let idv = e.register(MockIdentity, ());
+        let none: Option<Address> = None;
+        let tok = match *shape {
+            "neither" => e.register(RwaTok, (none.clone(), none.clone())),
+            "compliance-only" => e.register(RwaTok, (Some(comp.clone()), none.clone())),
+            _ => e.register(RwaTok, (none.clone(), Some(idv.clone()))),
+        };
+        let u = w.accounts(3);
+        rep.op(format!("deploy RWA token wired with: {shape}"));
+        // (the supervisory calls - forced transfer, burn - need the compliance contract, which they notify,
+        // but no identity verifier; mint and the holder-initiated movements need both)
+        let attempt = |rep: &mut Report, phase: &str, comp_wired: bool, idv_wired: bool| {
+            let calls: Vec<(&str, SVec<Val>)> = vec![
+                ("mint", args!(e, u[0], 10i128)),
+                ("mint", args!(e, u[0], 0i128)),
+                ("transfer", args!(e, u[0], u[1], 0i128)),
+                ("transfer", args!(e, u[0], u[1], 1i128)),
+                ("transfer_from", args!(e, u[2], u[0], u[1], 0i128)),
+                ("forced_transfer", args!(e, u[0], u[1], 0i128)),
+                ("burn", args!(e, u[0], 0i128)),
+            ];
+            for (f, a) in calls {
+                e.mock_all_auths();
+                let got: Result<Val, Fail> = invoke(e, &tok, f, a);
+                rep.evaluations += 1;
+                rep.op(format!("{phase}: {f} -> {}", tag(&got)));
+                rep.case(format!("unwired/{shape}/{phase}/{f}/{}", tag(&got)));
+                let gated = matches!(f, "mint" | "transfer" | "transfer_from");
+                if !comp_wired {
+                    rep.check("gate", got.is_err(), &format!("C04/gate/{f}/passed-on-a-token-without-compliance-contract"), || format!("{f} succeeded in phase {phase} of a token deployed with '{shape}'"));
+                } else if !idv_wired && gated {
+                    rep.check("gate", got.is_err(), &format!("C04/gate/{f}/passed-on-a-token-without-identity-verifier"), || format!("{f} succeeded in phase {phase} of a token deployed with '{shape}'"));
+                }
+            }
+            let l: SVec<HookCall> = invoke(e, &comp, "log", args!(e)).unwrap();
+            let s: i128 = invoke(e, &tok, "total_supply", args!(e)).must("total_supply");
+            if !comp_wired {
+                rep.check("res", l.is_empty() && s == 0, "C04/res/unwired/refused-movements-left-a-trace", || format!("compliance log {} entries, supply {s}", l.len()));
+            } else if !idv_wired {
+                rep.check("res", s == 0 && l.iter().all(|hc| hc.amount == 0 && hc.kind != 1), "C04/res/unwired/refused-movements-left-a-trace", || format!("supply {s}, compliance log {:?}", l.iter().map(|hc| (hc.kind, hc.amount)).collect::<Vec<_>>()));
+            }
+        };
+        attempt(rep, "before", *shape == "compliance-only", *shape == "identity-only");
+        // wire what is missing: the same calls now behave as on any token (mint of 10 succeeds)
+        if *shape != "compliance-only" {
+            invoke::<()>(e, &tok, "wire_compliance", args!(e, comp.clone())).unwrap();
+        }
+        if *shape != "identity-only" {
+            // with the compliance contract named but still no identity verifier: still refused
+            if *shape == "neither" {
+                attempt(rep, "compliance-named", true, false);
+            }
+            invoke::<()>(e, &tok, "wire_identity_verifier", args!(e, idv.clone())).unwrap();
+        }
+        attempt(rep, "wired", true, true);
+        let b: i128 = invoke(e, &tok, "balance", args!(e, u[0])).must("balance");
+        rep.check("ref", b == 9, "C04/ref/unwired/token-works-once-wired", || format!("after wiring, mint 10 / transfer 1 left holder 0 with {b} (expected 9)"));
+        rep.count("unwired_histories");
+        rep.end_history();
+    }
+}
+
 // ------------------------------------------------------------------ the library's compliance dispatcher
 /// RWA token wired to a compliance contract built from `compliance::storage` with three scripted,
 /// logging modules: a movement passes iff NO registered module denies it, and every module registered
@@ -724,6 +800,7 @@ pub fn run(cfg: &Cfg, rep: &mut Report) {
     rep.rule = "(a) exhaustive sweep (split over shards) of transfer and transfer_from under all 2^7 combinations of {paused, from frozen, to frozen, amount > free, id(from) fails, id(to) fails, compliance denies} and mint under 2^2, each in 3 variants (partial amount, self-transfer, whole balance) on a fresh token with sufficient balance and allowance; (a') the library's own compliance dispatcher with 3 scripted logging modules: every entry point x every subset of registered modules {all, two, none} x every subset of denying modules; (b) seeded histories of mint/transfer/transfer_from/approve/forced_transfer/burn/recover_balance/freeze/unfreeze/set_address_frozen/pause/unpause with gate toggles in between, amounts around balance, free and frozen; (c) the token wired to the library's real identity verifier over real registries, identity contracts and claim issuers (C15's history engine): after every registry / key / claim / time step, mints to and transfers between 4 accounts must pass exactly when the iff-oracle of C15 says the parties are verified. Distinct case = (entry point, 7-bit gate vector, outcome) for (a) and (op, gate vector or freeze class, outcome) for (b).".into();
     gate_sweep(cfg, rep);
     real_dispatcher(cfg, rep);
+    unwired(cfg, rep);
     let nh = cfg.pick(60u64, 1200);
     let steps = cfg.pick(160usize, 300);
     for k in 0..nh {
